@@ -45,14 +45,25 @@ def completed (s : St) (batchSize : Nat) (duration : Q) : St :=
     if s.dur.isZero then { s with dur := duration } else { s with dur := s.dur.smooth duration }
   else s
 
+/-- `reset_batch_stats()`: what `terminate()` of the loky / multiprocessing backends does (an unmanaged `Parallel` after
+every call, a managed one only in `__exit__`). -/
+def reset (_ : St) : St := {}
+
+/-- `newCall nTasks nDispatched nWorkers`: the `Parallel` object starts another call on the same, still configured, backend
+(a managed `with Parallel(...)`): `_reset_run_tracking` and the new call's `n_tasks` (`none` = unsized input),
+`n_dispatched_tasks`, number of workers. The mixin reads none of them: the statistics survive unchanged. -/
 inductive Op where
   | compute
   | completed (batchSize : Nat) (duration : Q)
+  | reset
+  | newCall (nTasks : Option Nat) (nDispatched nWorkers : Nat)
 deriving Repr, Inhabited
 
 def step (s : St) : Op → St × Option Nat
   | .compute => let (s, b) := compute s; (s, some b)
   | .completed b d => (completed s b d, none)
+  | .reset => (reset s, none)
+  | .newCall _ _ _ => (s, none)
 
 def run : St → List Op → List Nat
   | _, [] => []
